@@ -45,7 +45,7 @@ struct tcb { struct tcb* next_entry; int state; struct slot pointers[XV_K]; };  
 struct tbl { struct tcb* head; struct node* abandoned_retired_nodes; };
 struct tbl_iter { struct tcb* ptr; };
 struct td { struct node* retire_list; size_t number_of_retired_nodes; struct slot* hint; struct tcb* control_block; };
-struct vec { uintptr_t data[VCAP + 1]; size_t n; };
+struct vec { uintptr_t data[VCAP + 1]; unsigned char n; };   /* n <= VCAP < 256 */
 struct guard { struct node* ptr; struct slot* hp; };
 static const struct tbl_iter xv_no_iter = {0};
 static struct tbl_iter XV_MAKE_ITER(struct tcb* p) { struct tbl_iter it; it.ptr = p; return it; }
@@ -77,46 +77,47 @@ static void vec_push_back(struct vec* v, uintptr_t x) { if (v->n >= VCAP) { g_mo
 #define VEC_end(v) (&(v).data[(v).n])
 typedef const uintptr_t* cit;
 /* all stubs turn the iterator pair into (base pointer, length) once and then work with integer indices */
-static _Bool range_sorted(cit b, size_t n) { for (unsigned i = 0; i + 1 < VCAP; i++) if (i + 1 < n && b[i] > b[i + 1]) return 0; return 1; }
-/* std::sort: the result is THE sorted permutation of the input (unique as a sequence of values).  Encoded with a permutation
- * witness (and its inverse) instead of a sorting network: same contract, much easier for the SAT solver; the assumptions are
- * always satisfiable, so no behaviour is excluded */
+static _Bool range_sorted(cit b, unsigned char n) { for (unsigned i = 0; i + 1 < VCAP; i++) if (i + 1 < n && b[i] > b[i + 1]) return 0; return 1; }
+/* std::sort: the result is the sorted permutation of the input.  The stub guarantees LESS (an over-approximation of the contract, hence
+ * sound): same length, sorted, and the same SET of values (every input value occurs in the output and vice versa).  The assumptions
+ * are always satisfiable (the sorted permutation satisfies them), so no behaviour is excluded. */
 static void STD_sort(uintptr_t* b, uintptr_t* e) {
-  size_t n = e - b; uintptr_t in[VCAP]; unsigned char perm[VCAP], inv[VCAP];
-  for (unsigned i = 0; i < VCAP; i++) { in[i] = b[i]; perm[i] = nondet_uchar(); inv[i] = nondet_uchar(); }
-  for (unsigned i = 0; i < VCAP; i++) if (i < n) {
-    XV_ASSUME(perm[i] < n && inv[i] < n && inv[perm[i]] == i && perm[inv[i]] == i);
-    b[i] = in[perm[i]];
-  }
+  unsigned char n = (unsigned char)(e - b); uintptr_t in[VCAP];
+  for (unsigned i = 0; i < VCAP; i++) { in[i] = b[i]; if (i < n) b[i] = nondet_uptr(); }
   for (unsigned i = 0; i + 1 < VCAP; i++) if (i + 1 < n) XV_ASSUME(b[i] <= b[i + 1]);
+  for (unsigned i = 0; i < VCAP; i++) if (i < n) {
+    _Bool in_out = 0, out_in = 0;
+    for (unsigned k = 0; k < VCAP; k++) if (k < n) { if (b[k] == in[i]) in_out = 1; if (in[k] == b[i]) out_in = 1; }
+    XV_ASSUME(in_out && out_in);
+  }
 }
 unsigned g_search_unsorted;
 static _Bool xv_binary_search(cit b, cit e, uintptr_t key) {   /* sorted range: result <=> key in [b,e); otherwise unspecified */
-  size_t n = e - b;
+  unsigned char n = (unsigned char)(e - b);
   if (!range_sorted(b, n)) { g_search_unsorted++; return nondet_bool(); }
   _Bool found = 0; for (unsigned i = 0; i < VCAP; i++) if (i < n && b[i] == key) found = 1;
   return found;
 }
 #define STD_binary_search(b, e, k) xv_binary_search((b), (e), (k)->addr)
 static cit STD_lower_bound(cit b, cit e, uint64_t key) {       /* sorted range: first element >= key, or e */
-  size_t n = e - b;
-  if (!range_sorted(b, n)) { g_search_unsorted++; size_t k = nondet_size(); XV_ASSUME(k <= n); return b + k; }
-  size_t r = n; for (unsigned i = VCAP; i-- > 0;) if (i < n && b[i] >= key) r = i;
+  unsigned char n = (unsigned char)(e - b);
+  if (!range_sorted(b, n)) { g_search_unsorted++; unsigned char k = nondet_uchar(); XV_ASSUME(k <= n); return b + k; }
+  unsigned char r = n; for (unsigned i = VCAP; i-- > 0;) if (i < n && b[i] >= key) r = i;
   return b + r;
 }
 static uintptr_t* STD_unique(uintptr_t* b, uintptr_t* e) {     /* removes consecutive duplicates, returns the new end; the tail is unspecified */
-  size_t n = e - b; size_t w = 0;
+  unsigned char n = (unsigned char)(e - b); unsigned char w = 0;
   for (unsigned i = 0; i < VCAP; i++) if (i < n && (w == 0 || b[w - 1] != b[i])) { b[w] = b[i]; w++; }
   for (unsigned i = 0; i < VCAP; i++) if (i >= w && i < n) b[i] = nondet_uptr();
   return b + w;
 }
-static void vec_erase(struct vec* v, cit first, cit last) { if (last != &v->data[v->n]) { g_model_overflow = 1; return; } v->n = first - &v->data[0]; }
+static void vec_erase(struct vec* v, cit first, cit last) { if (last != &v->data[v->n]) { g_model_overflow = 1; return; } v->n = (unsigned char)(first - &v->data[0]); }
 #define VEC_erase(v, f, l) vec_erase(&(v), (f), (l))
 
 /* ---- ghost event record of a scan ---- */
 uint64_t g_fence_clock, g_first_slot_clock, g_adopt_clock, g_first_state_clock, g_head_clock; int g_head_order;
 unsigned g_slot_reads[XV_E][XV_K], g_state_reads[XV_E]; _Bool g_seen_active[XV_E], g_link_seen;
-uintptr_t g_gath[VCAP]; unsigned g_ng;           /* HP: non-link words / HE: eras read from slots of entries that were active when last looked at */
+uintptr_t g_val[XV_E][XV_K]; _Bool g_counted[XV_E][XV_K];           /* HP: non-link words / HE: eras read from slots of entries that were active when last looked at */
 unsigned g_era_add_n; int g_era_add_o; extern uint64_t t_seq, t_era_seq;
 unsigned g_state_store_n, g_ab_cas_ok_n, g_ab_store_n, g_ab_xchg_n, g_cnt_sub_n; int g_state_store_k, g_state_store_o, g_state_store_v, g_ab_cas_o; uint64_t g_cnt_sub_v;
 struct node *g_ab_cas_d, *g_ab_cas_e;
@@ -126,11 +127,12 @@ static void mon_load(void* addr, uint64_t v, int o) {
     if (addr == (void*)&epool(k).state) { g_state_reads[k]++; g_seen_active[k] = ((int)v == ES_active); if (!g_first_state_clock) g_first_state_clock = xv_clock; }
     for (unsigned i = 0; i < XV_K; i++) if (addr == (void*)&epool(k).pointers[i].value) {
       g_slot_reads[k][i]++; if (!g_first_slot_clock) g_first_slot_clock = xv_clock;
-      if (g_seen_active[k] && MP_mark(v) == 0 && g_ng < VCAP) {
+      if (g_seen_active[k] && MP_mark(v) == 0) {
+        g_counted[k][i] = 1;
 #ifdef XV_HE
-        g_gath[g_ng++] = (uintptr_t)(MP_get(v) >> 1);
+        g_val[k][i] = (uintptr_t)(MP_get(v) >> 1);
 #else
-        g_gath[g_ng++] = MP_get(v);
+        g_val[k][i] = MP_get(v);
 #endif
       }
     }
@@ -149,8 +151,8 @@ static void mon_rmw(void* addr, uint64_t oldv, uint64_t newv, int o) {
   if (addr == (void*)&number_of_active_hps) { g_cnt_sub_n++; g_cnt_sub_v = oldv - newv; }
   if (addr == (void*)&era_clock) { g_era_add_n++; g_era_add_o = o; t_era_seq = ++t_seq; }
 }
-static _Bool gath_contains(uintptr_t w) { for (unsigned i = 0; i < VCAP; i++) if (i < g_ng && g_gath[i] == w) return 1; return 0; }
-static _Bool gath_in_interval(uint64_t lo, uint64_t hi) { for (unsigned i = 0; i < VCAP; i++) if (i < g_ng && g_gath[i] >= lo && g_gath[i] <= hi) return 1; return 0; }
+static _Bool gath_contains(uintptr_t w) { for (unsigned k = 0; k < XV_E; k++) for (unsigned i = 0; i < XV_K; i++) if (g_counted[k][i] && g_val[k][i] == w) return 1; return 0; }
+static _Bool gath_in_interval(uint64_t lo, uint64_t hi) { for (unsigned k = 0; k < XV_E; k++) for (unsigned i = 0; i < XV_K; i++) if (g_counted[k][i] && g_val[k][i] >= lo && g_val[k][i] <= hi) return 1; return 0; }
 
 /* a nondeterministic node pointer as a choice between constant-index addresses (keeps cbmc's dereferencing field-sensitive) */
 static struct node* nondet_node(void) { unsigned k = nondet_uint(); return k < NN ? NODE(k) : (struct node*)0; }
@@ -206,10 +208,41 @@ static void n_set_deleter(struct node* n, int d) { t_setdel_n++; t_setdel_seq = 
 static void td_scan_stub(struct td* t) { t_scan_n++; t_scan_seq = ++t_seq; t_count_at_scan = t->number_of_retired_nodes; }
 #define TD_scan(t) td_scan_stub(&(t))
 
+/* reclaim_nodes as called from scan: the real text, or (XV_STUB_RECLAIM) its contract, which run *_reclaim proves for the real text:
+ * requires a sorted vector; every node of the list is deleted iff the vector does not protect it (HP: contains its address,
+ * HE: contains an era in [construction_era, retirement_era]), otherwise it is added to the retire list; nothing else changes */
+static _Bool vec_protects(const struct vec* v, const struct node* n);
+static void n_delete_self(struct node* n);
+static _Bool range_sorted(const uintptr_t* b, unsigned char n);
+unsigned g_reclaim_unsorted;
+static void reclaim_nodes_stub(struct td* t, struct node* list, const struct vec* v) {
+  if (!range_sorted(&v->data[0], v->n)) g_reclaim_unsorted++;
+  for (unsigned s = 0; s < NN; s++) if (list) {
+    struct node* cur = list; list = list->next;
+    if (vec_protects(v, cur)) { cur->next = t->retire_list; t->retire_list = cur; t->number_of_retired_nodes++; } else n_delete_self(cur);
+  }
+}
+#ifdef XV_STUB_RECLAIM
+#define HP_RECLAIM_NODES(t, l, v) reclaim_nodes_stub((t), (l), (v))
+#define HE_RECLAIM_NODES(t, l, v) reclaim_nodes_stub((t), (l), (v))
+#else
+#define HP_RECLAIM_NODES(t, l, v) hp_reclaim_nodes((t), (l), (v))
+#define HE_RECLAIM_NODES(t, l, v) he_reclaim_nodes((t), (l), (v))
+#endif
 #define HP_TD_add_retired_node(t, p) hp_add_retired_node(&(t), (p))
 #define HE_TD_add_retired_node(t, p) he_add_retired_node(&(t), (p))
 #include "lowered.h"
 
+static _Bool vec_protects(const struct vec* v, const struct node* n) {
+  for (unsigned i = 0; i < VCAP; i++) if (i < v->n) {
+#ifdef XV_HE
+    if (n->construction_era <= v->data[i] && v->data[i] <= n->retirement_era) return 1;
+#else
+    if (v->data[i] == n->addr) return 1;
+#endif
+  }
+  return 0;
+}
 /* =============================== state =============================== */
 /* inputs (in_*): list of in_ne entries epool(0..ne-1) (WLOG in pool order: entry addresses are never compared), their states and slot
  * words; the thread's retire list npool(0..nl-1) (in this order), the global abandoned list npool(L..L+na-1); node address words */
@@ -220,9 +253,9 @@ static struct node* adopted(unsigned i) { return NODE(XV_L + i); }
 static _Bool is_own(unsigned j) { return j < in_nl; }
 static _Bool is_adopted(unsigned j) { return j >= XV_L && j < XV_L + in_na; }
 static void reset_ghost(void) {
-  g_fence_clock = g_first_slot_clock = g_adopt_clock = g_first_state_clock = g_head_clock = g_first_delete_clock = 0; g_head_order = -1; g_ng = 0; g_link_seen = 0;
-  for (unsigned k = 0; k < XV_E; k++) { g_state_reads[k] = 0; g_seen_active[k] = 0; for (unsigned i = 0; i < XV_K; i++) g_slot_reads[k][i] = 0; }
-  g_state_store_n = g_ab_cas_ok_n = g_ab_store_n = g_ab_xchg_n = g_cnt_sub_n = g_era_add_n = 0; g_double_delete = 0; g_deletes = 0; g_search_unsorted = 0; g_model_overflow = 0;
+  g_fence_clock = g_first_slot_clock = g_adopt_clock = g_first_state_clock = g_head_clock = g_first_delete_clock = 0; g_head_order = -1; g_link_seen = 0;
+  for (unsigned k = 0; k < XV_E; k++) { g_state_reads[k] = 0; g_seen_active[k] = 0; for (unsigned i = 0; i < XV_K; i++) { g_slot_reads[k][i] = 0; g_counted[k][i] = 0; g_val[k][i] = 0; } }
+  g_state_store_n = g_ab_cas_ok_n = g_ab_store_n = g_ab_xchg_n = g_cnt_sub_n = g_era_add_n = 0; g_double_delete = 0; g_deletes = 0; g_search_unsorted = 0; g_reclaim_unsorted = 0; g_model_overflow = 0;
   t_reset_n = t_setdel_n = t_scan_n = t_add_n = 0; t_seq = 0; xv_clock = 0;
 }
 static void havoc_state(void) {
@@ -284,7 +317,7 @@ static void check_order_obligations(void) {
   XV_OBL("hpscan.fence_first", g_fence_clock != 0 && (g_first_slot_clock == 0 || g_fence_clock < g_first_slot_clock));
   XV_OBL("hpscan.adopt_before_gather", g_ab_xchg_n <= 1 && (g_adopt_clock == 0 || g_first_slot_clock == 0 || g_adopt_clock < g_first_slot_clock));
   XV_OBL("hpscan.fence_first", g_first_delete_clock == 0 || g_first_slot_clock == 0 || g_first_slot_clock < g_first_delete_clock);
-  XV_OBL("hpscan.search_sorted", g_search_unsorted == 0);
+  XV_OBL("hpscan.search_sorted", g_search_unsorted == 0 && g_reclaim_unsorted == 0);
   XV_MODEL_ASSERT("vector capacity", !g_model_overflow);
 }
 static void check_gather_complete(void) {
@@ -354,6 +387,36 @@ void h_scan_int(void) {
     if (npool(j).deleted) XV_CANARY("scan_int.deleted"); else XV_CANARY("scan_int.spared");
   } else XV_OBL(OBL_CONSERVE, npool(j).deleted == 0 && o == 0);
 #endif
+}
+
+/* =============================== reclaim_nodes =============================== */
+#ifdef XV_HE
+#define RECLAIM_REAL(t, l, v) he_reclaim_nodes((t), (l), (v))
+#else
+#define RECLAIM_REAL(t, l, v) hp_reclaim_nodes((t), (l), (v))
+#endif
+struct vec in_vec;
+void h_reclaim(void) {
+  /* retire list = own(0..nl-1) (kept by an earlier call), list to process = adopted(0..na-1), vector: any sorted content */
+  havoc_state();
+  in_vec.n = nondet_size(); XV_ASSUME(in_vec.n <= VCAP);
+  for (unsigned i = 0; i <= VCAP; i++) in_vec.data[i] = nondet_uptr();
+  XV_ASSUME(range_sorted(&in_vec.data[0], in_vec.n));
+  struct vec v0 = in_vec;
+  unsigned j = nondet_uint(); XV_ASSUME(j < NN);
+  _Bool prot = vec_protects(&in_vec, NODE(j)); struct node* nx0 = npool(j).next;
+  RECLAIM_REAL(&local_thread_data, in_na ? adopted(0) : (struct node*)0, &in_vec);
+  _Bool wf; unsigned len = chain_len(local_thread_data.retire_list, &wf); unsigned o = occ(local_thread_data.retire_list, NODE(j));
+  XV_OBL(OBL_CONSERVE, wf && local_thread_data.number_of_retired_nodes == len && !g_double_delete && g_search_unsorted == 0);
+  if (is_adopted(j)) {
+    XV_OBL(OBL_SPARES, !prot || (npool(j).deleted == 0 && o == 1));
+    XV_OBL("hpscan.skips_inactive", prot || (npool(j).deleted == 1 && o == 0));
+    if (prot) XV_CANARY("reclaim.spared"); else XV_CANARY("reclaim.deleted");
+  } else if (is_own(j)) XV_OBL(OBL_CONSERVE, npool(j).deleted == 0 && o == 1 && npool(j).next == nx0);
+  else XV_OBL(OBL_CONSERVE, npool(j).deleted == 0 && o == 0 && npool(j).next == nx0);
+  { unsigned i = nondet_uint(); XV_ASSUME(i <= VCAP); XV_OBL(OBL_CONSERVE, in_vec.n == v0.n && in_vec.data[i] == v0.data[i]); }   /* the vector is only read */
+  if (in_vec.n == VCAP && in_na == XV_LA && in_nl == XV_L) XV_CANARY("reclaim.full");
+  if (in_vec.n == 0 && in_na) XV_CANARY("reclaim.empty_vector");
 }
 
 /* =============================== ~thread_data =============================== */
